@@ -55,6 +55,20 @@ impl Enc {
         }
     }
 
+    /// every byte at a position < n is ASCII or part of a well-formed C3 A9
+    /// pair (U+00E9) lying inside b[0..n)
+    pub fn assume_ascii_eacute(&mut self) {
+        for i in 0..self.l {
+            let lead = if i + 1 < self.l {
+                format!("(and (= b{} #xc3) (< {} n) (= b{} #xa9))", i, i + 1, i + 1)
+            } else {
+                "false".to_string()
+            };
+            let cont = if i >= 1 { format!("(and (= b{} #xa9) (= b{} #xc3))", i, i - 1) } else { "false".to_string() };
+            let _ = writeln!(self.text, "(assert (or (<= n {}) (bvult b{} #x80) {} {}))", i, i, lead, cont);
+        }
+    }
+
     fn byte(i: usize) -> String {
         format!("b{}", i)
     }
@@ -69,6 +83,21 @@ impl Enc {
         let next_is = |c: u8| format!("(and {} (= {} #x{:02x}))", hasnext, next, c);
         let wb = format!("(and {} (isw {}))", hasprev, prev);
         let wa = format!("(and {} (isw {}))", hasnext, next);
+        // U+00E9 (C3 A9) immediately before / after position i, inside [lo,hi]
+        let e_before = if i >= 2 {
+            format!("(and (<= {} {}) (= b{} #xc3) (= b{} #xa9))", lo, i - 2, i - 2, i - 1)
+        } else {
+            "false".to_string()
+        };
+        let e_after = if i + 1 < self.l {
+            format!("(and (< {} {}) (= b{} #xc3) (= b{} #xa9))", i + 1, hi, i, i + 1)
+        } else {
+            "false".to_string()
+        };
+        let dec_prev_ok = format!("(or (not {}) (bvult {} #x80) {})", hasprev, prev, e_before);
+        let dec_next_ok = format!("(or (not {}) (bvult {} #x80) {})", hasnext, next, e_after);
+        let wbu = format!("(or {} {})", wb, e_before);
+        let wau = format!("(or {} {})", wa, e_after);
         match l {
             Look::Start => format!("(= {} {})", lo, i),
             Look::End => format!("(= {} {})", hi, i),
@@ -90,12 +119,18 @@ impl Enc {
                 next_is(b'\n'),
                 prev_is(b'\r')
             ),
-            Look::WordAscii | Look::WordUnicode => format!("(xor {} {})", wb, wa),
-            Look::WordAsciiNegate | Look::WordUnicodeNegate => format!("(= {} {})", wb, wa),
-            Look::WordStartAscii | Look::WordStartUnicode => format!("(and (not {}) {})", wb, wa),
-            Look::WordEndAscii | Look::WordEndUnicode => format!("(and {} (not {}))", wb, wa),
-            Look::WordStartHalfAscii | Look::WordStartHalfUnicode => format!("(not {})", wb),
-            Look::WordEndHalfAscii | Look::WordEndHalfUnicode => format!("(not {})", wa),
+            Look::WordAscii => format!("(xor {} {})", wb, wa),
+            Look::WordAsciiNegate => format!("(= {} {})", wb, wa),
+            Look::WordStartAscii => format!("(and (not {}) {})", wb, wa),
+            Look::WordEndAscii => format!("(and {} (not {}))", wb, wa),
+            Look::WordStartHalfAscii => format!("(not {})", wb),
+            Look::WordEndHalfAscii => format!("(not {})", wa),
+            Look::WordUnicode => format!("(xor {} {})", wbu, wau),
+            Look::WordUnicodeNegate => format!("(and {} {} (= {} {}))", dec_prev_ok, dec_next_ok, wbu, wau),
+            Look::WordStartUnicode => format!("(and (not {}) {})", wbu, wau),
+            Look::WordEndUnicode => format!("(and {} (not {}))", wbu, wau),
+            Look::WordStartHalfUnicode => format!("(and {} (not {}))", dec_prev_ok, wbu),
+            Look::WordEndHalfUnicode => format!("(and {} (not {}))", dec_next_ok, wau),
         }
     }
 
